@@ -177,7 +177,12 @@ def drive(case):
             start = len(problem.v_objs)
             if op == "n":
                 for k in step[1]:
-                    ind = Individual(list(case["designs"][k]["vec"]))
+                    vv = [float(t) for t in case["designs"][k]["vec"]]
+                    if (k + len(case["designs"])) % 5 == 3:
+                        # a float ndarray as the design vector (what CMA-ES / CEM hand to evaluate)
+                        import numpy as np
+                        vv = np.array(vv)
+                    ind = Individual(vv)
                     ind.features["precision"] = case["designs"][k]["prec"]
                     if problem.v_register(ind) != k:
                         raise InfraError("harness: design keys out of order")
